@@ -777,6 +777,10 @@ def execute(plan):
 
     res = scenario.run(plan, world, main)
     res["nontrivial"] = bool(world.fault_counts) or len(plan["members"]) >= 2
+    # what the applications saw (used by the C11 ride-along comparison)
+    res["app_errors"] = sorted({e[0] if e[0] != "poller_died" else "poller_died:" + e[1].split("(")[0]
+                                for m in members.values() for e in m.errors})
+    res["ndelivered"] = sum(len(m.deliveries) for m in members.values())
     if res["status"] == "ok":
         ctx = {"members": members, "served": served, "env_log": env_log, "result": result,
                "delivered_resp": delivered_resp, "served_key": served_key, "leave_acks": leave_acks}
